@@ -252,11 +252,19 @@ def c03wire : Handler :=
       if Pred.C03.reservedRegion w then some "c03_reserved_id"
       else if Pred.C03.appbitsRegion w then some "c03_twobyte_appbits" else none)
 
+/-- where `mutOKR` is binding = the hypothesis of `c03_mut_pred`: every byte string except the images
+    of descriptions inside a known-finding region.  Sentence (2) is about "any input that Unmarshal
+    accepts", so a string that is NOT the image of a well-formed description is inside the quantifier
+    too (`mutOKR` is `remarshalOKR` there, which demands nothing of a rejected input);
+    `Pred.C03.mutWF` alone is false there, which would leave sentence (2) unenforced on all accepted
+    mutations that left the grammar. -/
+def mutQuantified (buf : Bytes) : Bool := Pred.C03.mutWF buf || (Wire.describe buf).isNone
+
 /-- `c03.mut` -/
 def c03mut : Handler :=
   mkHandler (do let b ← Rd.bytes; let qs ← Rd.list Rd.u8; let prev ← Rd.bytes; pure (b, qs, prev)) rdObs
     (fun (b, qs, prev) => Relax.canonObs (Pred.C03.modelObs b qs prev)) (fun (b, qs, _) o => Relax.mutOKR b qs o)
-    (fun (b, _, _) => Pred.C03.mutWF b) (fun (b, _, _) _ => Pred.C03.mutRegion b)
+    (fun (b, _, _) => mutQuantified b) (fun (b, _, _) _ => Pred.C03.mutRegion b)
 
 def rdViewKind : Rd ViewKind := do
   let t ← Rd.nat
